@@ -10,11 +10,9 @@ from C19_util import FQ, frac_of
 PID = "C19"
 PROP_FILES = ["Prop", "PropR"]
 # Prop.v (and all it imports) is axiom-free: enforced syntactically by extra() below.  PropR.v (sinusoid over
-# the reals) uses Coq's Reals (4 classical axioms) and, for the numeric bound on |2 pi - fl(2 pi)| only, the
-# interval tactic, which computes with the kernel's primitive 63-bit integers (their specifications are axioms).
+# the reals) uses Coq's Reals: exactly the four classical axioms below.
 ALLOWED_AXIOMS = [r"ClassicalDedekindReals\.sig_forall_dec$", r"ClassicalDedekindReals\.sig_not_dec$",
-                  r"Classical_Prop\.classic$", r"FunctionalExtensionality\.functional_extensionality_dep$",
-                  r"Uint63\.[A-Za-z0-9_']+$", r"PrimInt63\.[A-Za-z0-9_']+$"]
+                  r"Classical_Prop\.classic$", r"FunctionalExtensionality\.functional_extensionality_dep$"]
 RULE = ("modulo_counter: all 8 numbers-vs-streams combinations x a rational grid of (start, modulo, step) with "
         "modulo/step in {<1, 1, 2, 5, non-integers}, negative / zero steps and steps that are multiples of the modulo, "
         "constant and varying streams of unequal length, 40 pulls (the batched path re-bases several times), zero and "
@@ -634,7 +632,7 @@ def extra(chk, tier, rng):
   from vlib.framework import strip_comments
   d = chk.coqdir()
   for f in sorted(glob.glob(os.path.join(d, "*.v"))):
-    if os.path.basename(f) in ("ProofsR.v", "PropR.v"):
+    if os.path.basename(f) in ("ProofsR.v", "PropR.v", "NumR.v"):
       continue
     txt = strip_comments(open(f).read())
     m = re.search(r"\b(Reals|Interval|Classical\w*|FunctionalExtensionality|ProofsR|Coquelicot|Flocq)\b", txt)
